@@ -21,6 +21,7 @@ type goTranslator struct {
 	specSrc []string
 	imports map[string]bool
 	fail    string
+	needAlias bool
 }
 
 type goVar struct {
@@ -244,7 +245,11 @@ func (g *goTranslator) call(n *ast.CallExpr, old bool, bound map[string]goVar) g
 	case "iserr":
 		g.imports["errors"] = true
 		return goVal{src: fmt.Sprintf("errors.Is(%s, %s)", tr(0).src, tr(1).src), typ: boolT}
-	case "fresh", "within", "disjoint", "ptr", "buflen", "bufat", "bufopen", "eqbytes", "oldbytes", "forallb", "existsb":
+	case "disjoint", "within":
+		g.imports["unsafe"] = true
+		g.needAlias = true
+		return goVal{src: fmt.Sprintf("govc%s(%s, %s)", strings.Title(name), tr(0).src, tr(1).src), typ: boolT}
+	case "fresh", "ptr", "buflen", "bufat", "bufopen", "eqbytes", "oldbytes", "forallb", "existsb":
 		g.failf("builtin %s has no run-time counterpart", name)
 	}
 	// spec function
@@ -365,6 +370,29 @@ func govcCloneVal(v reflect.Value, seen map[uintptr]reflect.Value) reflect.Value
 		return n
 	}
 	return v
+}
+
+`
+
+
+const govcAliasHelper = `func govcRange(s []byte) (uintptr, uintptr) {
+	if cap(s) == 0 {
+		return 0, 0
+	}
+	p := uintptr(unsafe.Pointer(unsafe.SliceData(s)))
+	return p, p + uintptr(cap(s))
+}
+
+func govcDisjoint(a, b []byte) bool {
+	al, ah := govcRange(a)
+	bl, bh := govcRange(b)
+	return al == ah || bl == bh || ah <= bl || bh <= al
+}
+
+func govcWithin(a, b []byte) bool {
+	al, ah := govcRange(a)
+	bl, bh := govcRange(b)
+	return al == ah || (bl <= al && ah <= bh)
 }
 
 `
